@@ -95,6 +95,8 @@ class Expr:
             return self.spec_funcs[name]
         if name in self.SPEC_BUILTINS:
             return VBuiltin('spec.' + name)
+        if name == 'MISSING' and module == '$spec':
+            return VVal(self.th.const('sentinel:pane.field._MISSING'), py=None)
         if (module, name) in idx.class_by_mod:
             return VClass(name)
         key = f'{module}:{name}'
@@ -110,7 +112,7 @@ class Expr:
             if isinstance(expr, ast.Call) and isinstance(expr.func, ast.Name) and expr.func.id in ('_Missing', 'object'):
                 return VVal(self.th.const(f'sentinel:{module}.{name}'), py=None)
             # module-level value we do not evaluate: opaque, stable constant
-            return VVal(self.th.const(f'glob:{module}.{name}'), kind=self.shape_of('$' + name))
+            return self.mkval(self.th.const(f'glob:{module}.{name}'), self.shape_of('$' + name))
         if name in BUILTIN_EXC or name in BUILTIN_CLASSES:
             return VClass(CLASS_ALIASES.get(name, name))
         if name in BUILTIN_FUNCS:
@@ -192,7 +194,7 @@ class Expr:
             if ci is not None:
                 for c in self.idx.mro(recv.name):
                     if attr in c.class_attrs or any(n == attr for n, _ in c.fields):
-                        return [(VVal(th.const(f'clsattr:{c.name}.{attr}'), kind=self.shape_of(f'{recv.name}.{attr}')), st)]
+                        return [(self.mkval(th.const(f'clsattr:{c.name}.{attr}'), self.shape_of(f'{recv.name}.{attr}')), st)]
             return [(VBuiltin(f'{recv.name}.{attr}', recv=recv), st)]
         if isinstance(recv, VExc):
             recv = VVal(recv.val, kind='rec')
@@ -222,7 +224,7 @@ class Expr:
         kind = self.shape_of(src) if src else None
         if kind is None:
             kind = self.shape_of('.' + attr)
-        out = VVal(term, fresh=False, kind=kind)
+        out = self.mkval(term, kind)
         if self.spec_mode or attr in self.TOTAL_ATTRS or self.attr_total(recv, attr, src):
             return [(out, st)]
         # attribute may be absent: AttributeError
@@ -272,8 +274,9 @@ class Expr:
                     return [(v, s)] if is_and else rec(i + 1, s)
                 # try to stay on one path when the rest is pure & boolean
                 rest = rec(i + 1, s.fork())
-                if len(rest) == 1 and not isinstance(rest[0][0], Raised) and isinstance(v, VBool) \
+                if len(rest) == 1 and not isinstance(rest[0][0], Raised) \
                         and isinstance(rest[0][0], (VBool,)) and self.pure_extension(s, rest[0][1]):
+                    # (truthiness-equivalent result when the left operand is not itself a bool)
                     rb = rest[0][0].b
                     s2 = rest[0][1]
                     return [(VBool(z3.And(tv, rb) if is_and else z3.Or(tv, rb)), self.merge_guarded(s, s2, tv if is_and else z3.Not(tv)))]
@@ -556,7 +559,7 @@ class Expr:
         return self.bind(self.evs(exprs, st), k)
 
     def ev_Lambda(self, node, st):
-        return [(VFunc(node, st.env, self.cur_module, '<lambda>'), st)]
+        return [(VFunc(node, st.env, self.cur_module, '<lambda>', frame=st.env.get('$frame')), st)]
 
     def ev_Starred(self, node, st):
         raise OutOfSubset('starred expression', node)
@@ -622,7 +625,7 @@ class Expr:
                 k = self.toVal(idx, st)
                 has = z3.Select(th.m_hasA(cont.term), k)
                 ek = self.shape_of(self.src(node.value) + '[]') if node is not None else None
-                alts = [(has, VVal(z3.Select(th.m_getA(cont.term), k), kind=ek)), (z3.Not(has), ('raise', 'KeyError', origin))]
+                alts = [(has, self.mkval(z3.Select(th.m_getA(cont.term), k), ek)), (z3.Not(has), ('raise', 'KeyError', origin))]
                 return self.with_hash(k, idx, st, origin, alts)
             if kind in ('typeobj', 'cls', 'callable'):
                 t = th.fn('subscript_type', th.Val, th.Val, th.Val)(cont.term, self.toVal(idx, st))
@@ -633,7 +636,7 @@ class Expr:
         th = self.th
         st.add(n >= 0)
         ok = z3.And(i >= 0, i < n)
-        res = VVal(z3.Select(th.sq_arr(t), i), kind=elem_kind)
+        res = self.mkval(z3.Select(th.sq_arr(t), i), elem_kind)
         if self.spec_mode:
             return [(res, st)]
         return self.outcomes(st, [(ok, res), (z3.Not(ok), ('raise', 'IndexError', origin))])
